@@ -681,6 +681,10 @@ func ScanWALDirectory(dataDir string) (*WALSummary, error) {
 
 // GetRecentWALRecords returns the most recent WAL records
 func GetRecentWALRecords(dataDir string, limit int) ([]WALRecord, error) {
+	// "at most limit records": a negative limit asks for none (it used to make allRecords[len-limit:] panic)
+	if limit < 0 {
+		limit = 0
+	}
 	walDir := filepath.Join(dataDir, "pg_wal")
 	entries, err := os.ReadDir(walDir)
 	if err != nil {
